@@ -20,7 +20,7 @@ LABELS = ('k1', 'k2', 'average', 'slice', 'contrast', 'phase', 'repetition', 'se
           'user0', 'user1', 'user2', 'user3', 'user4', 'user7')           # KDIM_SORT_LABELS order
 _ISMRMRD_NAME = {'k1': 'kspace_encode_step_1', 'k2': 'kspace_encode_step_2'}
 
-# proper (right-handed) frames (read, phase, slice)
+# frames (read, phase, slice): six right-handed, two left-handed
 FRAMES = (
     ((1, 0, 0), (0, 1, 0), (0, 0, 1)),
     ((0, 1, 0), (0, 0, 1), (1, 0, 0)),
@@ -28,6 +28,9 @@ FRAMES = (
     ((-1, 0, 0), (0, -1, 0), (0, 0, 1)),
     ((0, -1, 0), (1, 0, 0), (0, 0, 1)),
     ((1, 0, 0), (0, 0, 1), (0, -1, 0)),
+    # left-handed frames (reversed phase / swapped read and phase): stored as improper rotations
+    ((1, 0, 0), (0, -1, 0), (0, 0, 1)),
+    ((0, 1, 0), (1, 0, 0), (0, 0, 1)),
 )
 
 
@@ -95,9 +98,10 @@ def write_file(path, acqs: list[dict], n_k0: int = 4, header_xml: str | None = N
         acq.idx.segment = int(a.get('segment', 0))
         acq.center_sample = int(a.get('center', nk0 // 2))
         acq.scan_counter = aid
-        acq.acquisition_time_stamp = aid
-        acq.measurement_uid = aid
-        acq.physiology_time_stamp[:] = (aid, aid + 1, aid + 2)
+        off = int(a.get('stamp_offset', 0))     # uint32 fields: offsets up to 2**32 - 2**18 exercise the full unsigned range
+        acq.acquisition_time_stamp = aid + off
+        acq.measurement_uid = aid + off
+        acq.physiology_time_stamp[:] = (aid + off, aid + 1 + off, aid + 2 + off)
         acq.position[:] = (aid, 2 * aid, 3 * aid)
         acq.patient_table_position[:] = (3 * aid, aid, 2 * aid)
         acq.user_int[0] = aid
